@@ -284,20 +284,44 @@ def project_adapt(sc, run):
     st = sc.get("settings", {})
     ao = st.get("adapt_options", {})
     sss = ao.get("step_size_settings", {})
+    # the effective settings (the crate's defaults with the scenario's values merged in), as the harness built them
+    eff0 = next((e.get("settings") for e in run if e["ev"] == "schema" and e.get("settings")), None)
+    if eff0 is not None:
+        sss = eff0.get("adapt_options", {}).get("step_size_settings", sss)
     method = sss.get("adapt_options", {}).get("method", "DualAverage")
     if "mclmc" in sc["preset"]:
         method = "Fixed"
     max_step = sss.get("adapt_options", {}).get("dual_average", {}).get("max_step_size", math.pi)
+    # the schedule constants the strategy reports must be the configured ones: recomputed from the effective settings
+    # (defaults filled in by the crate) the harness built the chain from
+    eff = next((e.get("settings") for e in run if e["ev"] == "schema" and e.get("settings")), None)
+    constok = True
+    if eff is not None:
+        eao = eff.get("adapt_options", {})
+        nt = eff.get("num_tune")
+        if nt != num_tune:
+            constok = False
+        elif kind == "global":
+            # window boundaries: the configured fractions of num_tune, whichever way they are rounded (the properties
+            # do not fix the rounding); frequencies and growth: the configured values themselves
+            want = {"early_freq": eao["early_mass_matrix_switch_freq"], "main_freq": eao["mass_matrix_switch_freq"],
+                    "upd_freq": eao["mass_matrix_update_freq"], "growth": eao["mass_matrix_window_growth"]}
+            constok = all(a0.get(k) == v for k, v in want.items())
+            constok = constok and abs(a0["early_end"] - eao["early_window"] * nt) <= 1.0
+            constok = constok and abs(a0["final_window"] - max(nt - eao["step_size_window"] * nt, 0.0)) <= 1.0
+        else:
+            constok = a0.get("upd_freq") == eao["transform_update_freq"]
+            constok = constok and abs(a0["final_window"] - nt * (1.0 - eao["step_size_window"])) <= 1.0
     if kind == "global":
         g = Fraction(a0["growth"]).limit_denominator(1 << 20)
         if float(g) != a0["growth"]:
             g = Fraction(a0["growth"])
         reset = {"e": "reset", "kind": kind, "numTune": num_tune, "earlyEnd": a0["early_end"],
                  "finalWindow": a0["final_window"], "earlyFreq": a0["early_freq"], "mainFreq": a0["main_freq"],
-                 "updFreq": a0["upd_freq"], "gn": g.numerator, "gd": g.denominator}
+                 "updFreq": a0["upd_freq"], "gn": g.numerator, "gd": g.denominator, "constok": bool(constok)}
     else:
         reset = {"e": "reset", "kind": kind, "numTune": num_tune, "earlyEnd": 0, "finalWindow": a0["final_window"],
-                 "earlyFreq": 1, "mainFreq": 1, "updFreq": a0["upd_freq"], "gn": 1, "gd": 1}
+                 "earlyFreq": 1, "mainFreq": 1, "updFreq": a0["upd_freq"], "gn": 1, "gd": 1, "constok": bool(constok)}
     lines.append(reset)
     # final averaged step size: the one in force when warm-up ends
     bar_final = None
@@ -392,7 +416,8 @@ def project_adapt(sc, run):
         jit = None
         base = None
         if d["ss_set"]:
-            jit = d["ss_set"][-1]["jitter"]
+            # the band is the *configured* jitter (effective settings), not the one the strategy says it used
+            jit = sss.get("jitter") if eff0 is not None else d["ss_set"][-1]["jitter"]
             base = f_from_bits(d["ss_set"][-1]["base"])
         step = f_from_bits(a["step"])
         bar_bits = sval(stt, "step_size_bar")
